@@ -221,6 +221,18 @@ def mutations(base, other, rnd, n_havoc, cmd_desc=None):
     if cmd_desc is not None and cmd_desc["framing"] in ("rtu", "tcp"):
         for code in (0, 1, 2, 4, 9, 11, 12, 0x7F, 0x80, 0xFF, rnd.randrange(256)):
             yield "exception-frame", (rc.rtu_exception(cmd_desc, code) if cmd_desc["framing"] == "rtu" else rc.tcp_exception(cmd_desc, code))
+    # AA55: the full-length frame under a response type that differs from the expected one in a single bit (e.g. the request's own
+    # type mirrored back), checksum recomputed
+    if cmd_desc is not None and cmd_desc["framing"] == "aa55" and len(base) >= 9:
+        for bit in range(16):
+            t = int.from_bytes(base[4:6], "big") ^ (1 << bit)
+            body = base[:4] + t.to_bytes(2, "big") + base[6:-2]
+            yield "type-one-bit-off", body + rc.aa55_sum(body)
+    # write-multi answers echoing a register count that matches in its low byte only
+    if cmd_desc is not None and cmd_desc.get("kind") == "multi" and cmd_desc["framing"] in ("rtu", "tcp"):
+        for hi in (1, 2, 0x80, 0xFF):
+            d2 = dict(cmd_desc, count=cmd_desc["count"] + (hi << 8))
+            yield "echo-of-another-write", (rc.rtu_response(d2, None) if cmd_desc["framing"] == "rtu" else rc.tcp_response(d2, None, txid=7))
     # AA55: short acknowledge frames (payload 06 / 15 / empty) carrying the response type of ANOTHER command, checksum correct
     if cmd_desc is not None and cmd_desc["framing"] == "aa55":
         for rt in ("03b6", "02b9", "019a", "0186", "0182", "0189", "03d9", "03b7", "%04x" % rnd.randrange(65536)):
